@@ -339,6 +339,12 @@ func (g *vrfPGhost) check(replies []string, st *vrfStore) {
 	case pUser, pPass, pApop:
 		vrf.Assert("auth-command-refused-in-transaction", !ok)
 	}
+	switch g.kind {
+	case pStat, pDele, pRset, pNoop, pQuit, pUser, pPass, pApop:
+		// one command, one reply line (a second line would be taken for the reply to the next
+		// command by the client)
+		vrf.Assert("single-line-reply", len(replies) == 1)
+	}
 }
 
 func (g *vrfPGhost) login(st *vrfStore) {
